@@ -136,20 +136,28 @@ func (bw *BatchedWriter) Enqueue(object BatchWriteObject) {
 		}
 	})
 
+	// count the object before checking whether the BatchWriter is still running: the batch writer only
+	// terminates after it has seen running == false and then scheduledCount == 0, so it can not terminate
+	// (and leave the object unwritten or the send below blocked forever) once the check has passed.
+	bw.scheduledCount.Add(1)
+
 	// abort if the BatchWriter has been stopped
 	if !bw.running.Load() {
+		bw.scheduledCount.Add(-1)
+
 		return
 	}
 
 	// abort if the very same object has been queued already
 	if object.BatchWriteScheduled() {
+		bw.scheduledCount.Add(-1)
+
 		return
 	}
 
 	verifEnqueueYield()
 
 	// queue object
-	bw.scheduledCount.Add(1)
 	bw.batchQueue <- object
 }
 
